@@ -33,7 +33,13 @@ REG = {
     "C09": {
         "module": "Props.C09",
         "suites": [("ns", (2500, 40000))],
-        "rule": _RULE + "a case is non-trivial if it has at least two files or an extra spelling; distinct = distinct (files, call, spellings)",
+        "rule": _RULE + "12% of the C09 cases are same-directory twins: two or three different FILES of one root namespace directory tree that denote one full name and "
+                "version (with / without a fixed port-ID, two different port-IDs, .dsdl next to .uavcan; equal or different contents; at the root of the namespace or nested; "
+                "in a lookup directory, in the referrers' own tree, 20% of the read_files calls with files of the pair among the targets) with 1-3 references to that name "
+                "and version (relative / absolute, from targets and from dependencies of targets; 7% to a version nobody has), 20% controls where the second file carries "
+                "another version, 10% pairs nobody refers to: a reference with two candidates must be rejected, also when both files of the pair are targets of the call "
+                "(what becomes of the pair itself is finding F9, judged under C10 only); 16% names differing by letter case only (gen_twins); "
+                "a case is non-trivial if it has at least two files or an extra spelling; distinct = distinct (files, call, spellings)",
         "technique": _TECH,
         "level_text": "For the modelled reader it is proved in Lean 4, for all lookup lists, definitions, caches and referrers: a successful "
                       "resolution returns the unique definition whose full name equals the completed reference and whose version is exactly M.m; "
@@ -62,7 +68,14 @@ REG = {
                 "name by punctuation sorting below '/' (-ext, +legacy, .old, ' copy', ...) or by characters sorting above it (_v2, 2, s, ...), directories nested "
                 "inside those siblings, the same one level further down, D in another letter case, D in another workspace, the parent of D; 60% of these sets contain "
                 "an ancestor, a descendant and 1-2 look-alike siblings, a quarter of them with the ancestor or descendant removed again (must be accepted); every "
-                "order of the arguments, root and lookups, read_namespace and read_files; 8% of the graph cases are call sequences (see C15)",
+                "order of the arguments, root and lookups, read_namespace and read_files; 8% of the graph cases are call sequences (see C15); 3.5% of the C10 cases are "
+                "version families at the ends of the range: for 1-3 type names 1-3 pairs that a lossy encoding of (major, minor) cannot tell apart - x.(R+k) / (x+1).k for "
+                "R = 255 (the roll-over pair x.255 / (x+1).0; half of the pairs), 254, 200, 128, 100, 16, 10 and x in {0, 1, 2, 9, 127, 253, 254}, equal concatenated digits "
+                "(1.23 / 12.3), equal sums (0.255 / 255.0) - with their neighbours (x.254, (x+1).1) and random versions out of {0, 1, 2, 254, 255}^2, the families in the "
+                "target namespace or a lookup namespace, 60% of them also referenced version by version from one definition (order of `transitive`), read_namespace and "
+                "read_files with the targets in any order; every such case is repeated in child interpreters under 2-3 PYTHONHASHSEED values and every one of those results "
+                "is judged on its own (newest first) and against the result of the parent process; 1.5% of the C10 cases are definitions that MENTION others in comments / "
+                "string literals (see C19) with the mentioned definition broken or bringing dependencies of its own: it must not show up in `transitive` nor fail the call",
         "technique": _TECH,
         "level_text": "Proved in Lean 4 for the model: the target list is exactly the definition files under the root (both extensions, none from "
                       "lookup directories), both result lists are sorted by (name, -major, -minor) and with distinct keys that order is unique; "
@@ -103,7 +116,11 @@ REG = {
         "module": ["Props.C15", "Props.C15Gen"],
         "suites": [("ns", (2500, 40000)), ("rootinfer", (1000, 30000))],
         "rule": "80% file-name cases: 1-6 files with well-formed names (port-ID present/absent, versions up to 255, both extensions, depth 0-5, namespace components equal "
-                "to root names), 11% malformed shapes (wrong arity, non-numeric, empty components, dots in directories), 2% names only int() accepts, 5% non-definition "
+                "to root names), 7% malformed shapes (wrong arity, non-numeric, empty components, dots in directories), 4% names with two or three extensions (half of them "
+                "made of the known extensions only - .uavcan.dsdl, .dsdl.uavcan, .dsdl.dsdl, ... -, the rest mixed with foreign ones - .txt, .bak, .DSDL, .Uavcan, .dsdl~, "
+                ".orig, ... - after well-formed stems with / without port-ID and stems lacking a field: a name ending in a known extension is a definition file and "
+                "must be rejected, any other is ignored; the corpus enumerates two stems x every pair of {.dsdl, .uavcan, .txt, .bak, .DSDL} through read_namespace and as a "
+                "read_files target, plus extension words used as short names), 2% names only int() accepts, 5% non-definition "
                 "files; read_namespace and read_files with up to 4 of the spellings: bare root names, relative with chdir, relative without roots, relative target welded "
                 "onto an absolute root, roots / targets via symlink, duplicated and reordered lists, single values, trailing slashes, Path objects; 20% general graphs; "
                 "messages and services with port-IDs absent / regulated / unregulated / at both ends of the valid ranges (0, 1, 511, 512, 8191, 8192), 45% of the calls "
@@ -155,7 +172,13 @@ REG = {
         "suites": [("ns", (2500, 40000))],
         "rule": _RULE + "every C19 case additionally replaces one definition (90% outside the dependency closure of the targets) by garbage, a failing assert / unknown directive, "
                 "an extra @print, a missing serialization mode, the other kind, other sealing / extent, a dangling reference, or renames it to another port-ID / version / name "
-                "/ a malformed name, and reads again",
+                "/ a malformed name, and reads again; 10% of the C19 cases are MENTIONS: a target or a real dependency of a target (Top -> Dep -> Leaf, a second target) writes "
+                "1-3 times the exact versioned name - absolute, or relative inside its namespace - of a definition it does not refer to, in a comment line, in the comment "
+                "in front of an attribute, in a comment behind a statement, or inside the string literals of an @assert that holds; the mentioned definition lies in a "
+                "lookup directory or (read_files) in the targets' own root namespace, alone or with a dependency / @print of its own, in one or two versions or as a "
+                "same-directory twin; controls: the name in another letter case, a version nobody has, a definition inside the closure; the mentioned definition (85%) or "
+                "another one outside the closure is then replaced by a text in every state of badness (does not parse, bytes that are not text, a directory of that name, "
+                "failing assert, unknown directive, @print, no serialization mode, other kind, other sealing, dangling reference) and the call is repeated",
         "technique": _TECH,
         "level_text": "Proved in Lean 4 for the model: listing a directory, ordering and reference resolution never look at definition texts (only a malformed file name can be "
                       "reported from a lookup directory), and the type of a definition is a function of its own text and the stand-alone types of the definitions its references "
